@@ -47,7 +47,7 @@ ASSUMPTIONS = [
 ]
 PROBES = ["overwrite_longer_then_shorter", "overwrite_other_kind", "txt_single_column", "txt_single_row", "txt_1x1", "txt_default_format",
           "net2d_empty", "net2d_no_header", "net3d_no_domain", "net3d_with_domain", "io_error_on_open", "io_error_on_write", "read_after_failed_write_skipped",
-          "three_paths", "polygon_6_vertices", "txt_integer_column", "txt_integer_first_then_float", "net2d_constrained_before_write", "net3d_georeferenced_coordinates", "net2d_tagged_fractures", "file_names_with_inner_dots", "rejected_txt_export", "rejected_export_onto_existing_file", "net2d_constrained_has_sub_tolerance_features_skipped"]
+          "three_paths", "polygon_6_vertices", "txt_integer_column", "txt_integer_first_then_float", "net2d_constrained_before_write", "net3d_georeferenced_coordinates", "net2d_tagged_fractures", "file_names_with_inner_dots", "rejected_txt_export", "rejected_export_onto_existing_file", "net2d_constrained_has_sub_tolerance_features_skipped", "net2d_multi_scale", "txt_default_file_name"]
 
 
 # --------------------------------------------------------------------------------------
@@ -147,7 +147,8 @@ def run_history_c47(ch, tr: Trace) -> None:
         paths = [Path(root) / nm for nm in names_by_family[name_family][:npaths]]
         if name_family:
             tr.probe("file_names_with_inner_dots")
-        model: dict = {p: ("absent", None, 0) for p in paths}  # kind, payload, size
+        default_txt = Path(root) / "out.txt"  # cwd is the scratch root (envseam.scratch)
+        model: dict = {p: ("absent", None, 0) for p in paths + [default_txt]}  # kind, payload, size
         prev_size: dict = {}
         seam = FsSeam(root, tr)
         tr.emit("config", npaths, p_fault)
@@ -192,6 +193,13 @@ def run_history_c47(ch, tr: Trace) -> None:
         def op_write_2d():
             p = ch.choice(paths)
             segs = gen_net2d(ch)
+            if ch.flag(1, 8):
+                # a multi-scale network: kilometre-sized fractures next to one of a few micrometres at the origin (well
+                # above the reader's absolute tolerance 1e-8, far below any tolerance scaled by the extent of the network)
+                far = [np.array([[1000.0 + 37.0 * j, 1900.0 - 11.0 * j], [1500.0 - 13.0 * j, 1200.0 + 29.0 * j]]) for j in range(ch.rng(1, 3))]
+                tiny = np.array([[0.0, 5.0e-6], [0.0, 0.0]]) if ch.flag() else np.array([[0.0, 0.0], [1.0e-6, 7.0e-6]])
+                segs = far + [tiny]
+                tr.probe("net2d_multi_scale")
             header = ch.flag(2, 3)
             # user tags on some or all fractures (extra rows of the network's edge array; the csv holds geometry only)
             tag_mode = ch.draw(4)  # 0, 1: none; 2: all tagged; 3: partly tagged
@@ -203,9 +211,9 @@ def run_history_c47(ch, tr: Trace) -> None:
                     fracs.append(pp.LineFracture(sg))
             if segs and tag_mode >= 2:
                 tr.probe("net2d_tagged_fractures")
-            dom = pp.Domain({"xmin": -1, "xmax": 2, "ymin": -1, "ymax": 2})
+            dom = pp.Domain({"xmin": -1, "xmax": 2, "ymin": -1, "ymax": 2}) if (not segs or float(np.max([sg.max() for sg in segs])) < 10.0) else pp.Domain({"xmin": -1, "xmax": 3000, "ymin": -1, "ymax": 3000})
             net = pp.create_fracture_network(fracs, dom) if fracs else pp.fracs.fracture_network_2d.FractureNetwork2d(domain=dom)
-            if segs and ch.flag(1, 3):
+            if segs and float(np.max([sg.max() for sg in segs])) < 10.0 and ch.flag(1, 3):
                 # constrain the network to a smaller domain before writing: fractures crossing the boundary are cut (and the
                 # domain edges may be added); what is written must be the network as it is now
                 small = pp.Domain({"xmin": 0.1, "xmax": 0.6, "ymin": 0.1, "ymax": 0.6})
@@ -250,7 +258,7 @@ def run_history_c47(ch, tr: Trace) -> None:
             finish_write(p, "net3d", payload, len(polys), lambda: net.to_csv(p, domain=dom if with_domain else None))
 
         def op_write_txt():
-            p = ch.choice(paths)
+            p = ch.choice(paths + [default_txt]) if ch.flag(1, 6) else ch.choice(paths)
             names, cols, lossless = gen_txt(ch)
             fmt = "%.17e" if lossless else "%2.2e"
             data = [TxtData(nm, c.copy(), fmt) if lossless else TxtData(nm, c.copy()) for nm, c in zip(names, cols)]
@@ -267,7 +275,12 @@ def run_history_c47(ch, tr: Trace) -> None:
                 if cols[0].dtype.kind == "i" and any(c.dtype.kind == "f" for c in cols[1:]):
                     tr.probe("txt_integer_first_then_float")
             payload = (names, [c.astype(float) for c in cols], lossless)
-            finish_write(p, "txt", payload, cols[0].size * len(cols), lambda: export_data_to_txt(data, p))
+            if p is default_txt:
+                # the documented default file name, "out.txt" relative to the directory the caller is in *now*
+                tr.probe("txt_default_file_name")
+                finish_write(p, "txt", payload, cols[0].size * len(cols), lambda: export_data_to_txt(data))
+            else:
+                finish_write(p, "txt", payload, cols[0].size * len(cols), lambda: export_data_to_txt(data, p))
 
         def op_write_txt_rejected():
             """Arrays of unequal length: the documented ValueError.  The path keeps what was written to it before."""
@@ -293,7 +306,7 @@ def run_history_c47(ch, tr: Trace) -> None:
         # ---- read ---------------------------------------------------------------------
         def op_read(p=None):
             if p is None:
-                p = ch.choice(paths)
+                p = ch.choice(paths + ([default_txt] if model[default_txt][0] != "absent" else []))
             kind, payload, size = model[p]
             if kind == "absent":
                 return
